@@ -509,9 +509,44 @@ func genRateWiring() {
 	pfd := p.findFunc("", "startPortScanEngine")
 	for _, st := range pfd.Body.List {
 		if fs, ok := st.(*ast.ForStmt); ok {
-			for _, c := range rwCallsIn(fs.Body, "startPacketScanEngine", "startScanEngine") {
-				loopCalls = append(loopCalls, rwCallee(c))
+			// a call inside a go statement or a function literal is transcribed as "go <callee>": the
+			// chunks (one limiter each) would then not run one after the other
+			var stack []ast.Node
+			ast.Inspect(fs.Body, func(n ast.Node) bool {
+				if n == nil {
+					stack = stack[:len(stack)-1]
+					return true
+				}
+				stack = append(stack, n)
+				c, ok := n.(*ast.CallExpr)
+				if !ok {
+					return true
+				}
+				name := rwCallee(c)
+				if name != "startPacketScanEngine" && name != "startScanEngine" {
+					return true
+				}
+				for _, a := range stack {
+					switch a.(type) {
+					case *ast.GoStmt, *ast.FuncLit, *ast.DeferStmt:
+						name = "go " + rwCallee(c)
+					}
+				}
+				loopCalls = append(loopCalls, name)
+				return true
+			})
+		}
+	}
+	// and the same call anywhere outside the loop of that function (e.g. a worker pool)
+	for _, c := range rwCallsIn(pfd.Body, "startPacketScanEngine", "startScanEngine") {
+		inLoop := false
+		for _, st := range pfd.Body.List {
+			if fs, ok := st.(*ast.ForStmt); ok && fs.Pos() <= c.Pos() && c.End() <= fs.End() {
+				inLoop = true
 			}
+		}
+		if !inLoop {
+			loopCalls = append(loopCalls, "outside-loop "+rwCallee(c))
 		}
 	}
 	fmt.Fprintf(&b, "Definition port_scan_chunk_loop_calls : list string := %s.\n\n", rwStrList(loopCalls))
